@@ -14,6 +14,13 @@ pub const S_WIDE: [f64; 5] = [1.0, 3.0, 1e9, 1e17, 1e-9];
 /// positive prices near the top of the f64 range: intermediate products such as 100 * x overflow here
 pub const S_HUGE: [f64; 4] = [1e307, 7e307, 2e307, 4e307];
 /// inexact positive prices (for spike alphabets: integers are exactly representable next to a 2.5e8 spike)
+/// neighbouring subnormal prices (bits 3, 4, 5, 8) and the smallest normal: halving, or any
+/// other "harmless" rescaling, is inexact here
+pub const S_SUBNORMAL: [f64; 5] = [1.5e-323, 2.0e-323, 2.5e-323, 4.0e-323, 2.2250738585072014e-308];
+/// finite values at both ends of the f64 range: differences and sums of two overflow
+pub const S_SIGNED_MAX: [f64; 6] = [-1e308, 1e308, f64::MAX, f64::MIN, 1.0, 0.0];
+/// same-sign prices within 20% of each other just below f64::MAX (1.797e308): any sum of two overflows
+pub const S_NEARMAX: [f64; 4] = [1.0e308, 1.1e308, 1.2e308, 1.05e308];
 pub const S_POS_X: [f64; 4] = [0.1, 0.7, 3.3, 1.3];
 /// neighbours one and four ulps apart, and a second cluster at 5e-15
 pub const S_ULP: [f64; 6] = [0.75, 0.7500000000000001, 0.7500000000000004, 1.0, 5.0e-15, 5.4e-15];
@@ -77,6 +84,16 @@ pub fn b_mfi() -> Vec<Bar> {
         Bar::hlcv(3.0, 1.0, 2.0, 2.0),
         Bar::hlcv(3.0, 3.0, 3.0, 1.0),
         Bar::hlcv(1.5, 0.5, 1.0, 2.0),
+    ]
+}
+
+/// valid bars with all prices near f64::MAX
+pub fn b_nearmax() -> Vec<Bar> {
+    vec![
+        Bar { o: 1.0e308, h: 1.1e308, l: 1.0e308, c: 1.05e308, v: 1.0 },
+        Bar { o: 1.1e308, h: 1.2e308, l: 1.05e308, c: 1.2e308, v: 2.0 },
+        Bar { o: 1.05e308, h: 1.05e308, l: 1.05e308, c: 1.05e308, v: 1.0 },
+        Bar { o: 1.2e308, h: 1.2e308, l: 1.0e308, c: 1.0e308, v: 3.0 },
     ]
 }
 
